@@ -455,6 +455,20 @@ theorem host_first_match (old : SecCfg) (c : Option Flat) (pre post : List NodeE
   rw [this, find_first pre post e ls hpre he]
   rfl
 
+/-! ### glue: the node's own bandwidth annotation (outside the layering statement) -/
+
+/-- without the annotation getNodeSLOSpec delivers exactly the five selected sections. -/
+theorem no_annotation_is_selection (st : Cfg) (ls : Labels) :
+    nodeSpecBw st ls none = (nodeSpec st ls).map some := by
+  simp [nodeSpecBw, nodeSpec, sysWithAnnotation]
+
+/-- a parsable annotation replaces totalNetworkBandwidth and touches no other field. -/
+theorem annotation_only_touches_bandwidth (t : Flat) (v : Int) (p : Path) :
+    ∃ t', sysWithAnnotation t (some (some v)) = some t' ∧ get t' tnbPath = some v ∧ (p ≠ tnbPath → get t' p = get t p) := by
+  refine ⟨setLeaf t tnbPath (some v), rfl, ?_, ?_⟩
+  · simp [get_setLeaf]
+  · intro h; simp [get_setLeaf, h]
+
 /-! ### non-vacuity: concrete configuration with overlapping selectors, all three layers, an array -/
 
 section Examples
